@@ -444,6 +444,17 @@ func TestC18(t *testing.T) {
 		if d := direct.diff(&fullNoOffset, true); d != "" {
 			viol("direct-apply-fold", d)
 		}
+		// a collection registered again for its entity type replaces the earlier one: later changes go
+		// to it, and a replay from the start fills it
+		if allOK && len(evs) > 0 {
+			fresh := state.NewTypedCollection[User](state.NewMemoryStore[User]())
+			state.RegisterCollection(one.mat, fresh)
+			if err := one.mat.Replay(ctx, bus, ebu.OffsetOldest); err != nil {
+				viol("reregister-replay-error", err.Error())
+			} else if !reflect.DeepEqual(norm(fresh.All()), full.users) {
+				viol("reregistered-collection", fmt.Sprintf("a collection registered again for the user type and replayed from the start holds %+v, the fold is %+v", fresh.All(), full.users))
+			}
+		}
 		// Materializer.Replay over the bus (only when every event applies: Replay stops at an error)
 		if allOK {
 			viaReplay := newSess(strict)
